@@ -2,3 +2,5 @@
 pub assume_specification<T, E>[core::result::Result::<T, E>::unwrap_or](r: core::result::Result<T, E>, d: T) -> (out: T)
     where E: core::marker::Destruct, T: core::marker::Destruct
     ensures out == (match r { Ok(t) => t, Err(_) => d });
+pub assume_specification<T: Clone>[<[T]>::to_vec](s: &[T]) -> (r: Vec<T>)
+    ensures r@.len() == s@.len(), forall|i: int| 0 <= i < s@.len() ==> vstd::pervasive::cloned(s@[i], #[trigger] r@[i]);
